@@ -36,6 +36,7 @@ WANT = {
     "src/tree_store/btree_base.rs": ("", ["LEAF", "BRANCH", "MAX_BTREE_DEPTH", "DEFERRED"]),
     "src/tree_store/table_tree_base.rs": ("", ["ALIGNMENT"]),
     "src/tree_store/btree_cursor.rs": ("", ["INSERT_FLUSH_BYTES"]),
+    "src/transactions.rs": ("", ["MAX_PAGES_PER_COMPACTION"]),
 }
 
 SIZEOF = {"u8": 1, "u16": 2, "u32": 4, "u64": 8, "u128": 16, "Checksum": 16, "i8": 1, "i16": 2,
